@@ -1,7 +1,10 @@
 """C16 - Every built-in function is callable under its specification name and arity."""
 from lib import driver as D
 
-MUTANTS = ["arityOffByOne", "acceptUnknown", "notImplementedYieldsValue", "probeMissing"]
+MUTANTS = ["arityOffByOne", "acceptUnknown", "notImplementedYieldsValue", "probeMissing", "experimentalLeaks"]
+# process histories: each is one harness process running an epoch of all cases of a configuration per letter, so every
+# configuration is compiled fresh, after the other one, and after both
+ORDERS = ["DED", "EDE"]
 
 
 def run(ctx):
@@ -17,8 +20,11 @@ def run(ctx):
         D.mutant_twin(ctx, "C16_MC", "C16_mut_%s.cfg" % m, m)
     D.write_ndjson(ctx.path("cases.ndjson"), cases)
     # direction A: every case (plus the names only the implementation's tables know) in the real code
-    D.run_harness(ctx, binary, ["run", ctx.path("cases.ndjson"), ctx.path("obs.ndjson")])
-    obs = D.read_ndjson(ctx.path("obs.ndjson"))
+    obs = []
+    for order in ORDERS:
+        D.run_harness(ctx, binary, ["run", ctx.path("cases.ndjson"), ctx.path("obs-%s.ndjson" % order), order])
+        obs += D.read_ndjson(ctx.path("obs-%s.ndjson" % order))
+    D.write_ndjson(ctx.path("obs.ndjson"), obs)
     verdicts = D.judge(ctx, "C16_Judge", "C16_judge.cfg", ctx.path("obs.ndjson"))
     D.check_complete(verdicts, obs)
     if any(v.get("sig", "").startswith("malformed") for v in verdicts):
@@ -28,20 +34,26 @@ def run(ctx):
     probes = [o for o in obs if o["kind"] == "probe"]
     evals = [o for o in obs if o["kind"] == "eval"]
     impl_only = sorted({o["cs"]["name"] for o in accepts if o["cs"]["origin"] == "impl"})
-    if len(accepts) < 2 * len(cases) or len(probes) < 200 or len(evals) < 100:
+    epochs = {(o["proc"], o["epoch"], o["cs"]["cfg"], tuple(o["hist"])) for o in accepts}
+    want_epochs = {("DED", 1, "default", ()), ("DED", 2, "experimental", ("default",)), ("DED", 3, "default", ("default", "experimental")),
+                   ("EDE", 1, "experimental", ()), ("EDE", 2, "default", ("experimental",)), ("EDE", 3, "experimental", ("experimental", "default"))}
+    if epochs != want_epochs:
+        raise D.Inconclusive("process histories not as planned: %s" % sorted(epochs))
+    if len(accepts) < 2 * 3 * len(cases) or len(probes) < 600 or len(evals) < 300:
         raise D.Inconclusive("dead driver: %d accept, %d eval, %d probe records" % (len(accepts), len(evals), len(probes)))
-    if sum(1 for o in probes if o["out"]["k"] == "ok") < 150:
-        raise D.Inconclusive("dead driver: fewer than 150 probes evaluated to a value")
+    if sum(1 for o in probes if o["out"]["k"] == "ok") < 450:
+        raise D.Inconclusive("dead driver: fewer than 450 probes evaluated to a value")
     if ctx.tier == "thorough":
         corrupt_probe(ctx, obs)
     by_id = {o["id"]: o for o in obs}
-    keys = [(o["kind"], o["pos"], o["cs"]["name"], o["cs"]["count"], o["tbl"]["present"], o["out"]["k"]) for o in obs]
+    keys = [(o["kind"], o["pos"], len(o["hist"]), o["cs"]["name"], o["cs"]["count"], o["tbl"]["present"], o["out"]["k"]) for o in obs]
     ctx.extra.update({"spec_names": len(names), "names_only_in_implementation": impl_only,
                       "compilations": len(accepts), "default_calls_evaluated": len(evals), "probes_evaluated": len(probes)})
     step = max(1, len(obs) // 5)
     return D.finish(ctx, verdicts, by_id, evaluations=len(accepts) + len(evals) + len(probes),
                     rule="exhaustive: every name of the N1 function list (FPFunctions) and every name of the implementation's base and experimental "
-                         "tables x argument counts 0..4 x {default, WithExperimentalFuncs}: Compile vs the implementation's table, the table's bounds vs "
+                         "tables x argument counts 0..4 x {default, WithExperimentalFuncs}, each configuration compiled fresh, after the other one and after both "
+                         "within one process (histories D,E,D and E,D,E; the table read through funcs.Clone() must stay what it was at process start): Compile vs the implementation's table, the table's bounds vs "
                          "the specification's counts, every accepted call evaluated (no arity complaint; not-implemented names never a value), and "
                          "every probe of every callable (name, count) against the value stated in the table; distinct = (record kind, name, count, "
                          "in table, outcome kind)",
@@ -64,13 +76,16 @@ def corrupt_probe(ctx, obs):
     for o in obs:   # (b) a probe result is replaced by another function's result
         if o["kind"] == "probe" and o["cs"]["name"] == "first" and o["out"]["k"] == "ok":
             v = copy.deepcopy(o); v["out"]["items"] = [{"t": "i", "i": 3}]; victims.append(v); break
+    for o in obs:   # (d) the table read after an experimental epoch has gained an entry
+        if o["kind"] == "accept" and o["cs"]["name"] == "join" and o["cs"]["cfg"] == "default" and o["epoch"] == 3 and o["pos"] == "plain" and o["cs"]["count"] == 0:
+            v = copy.deepcopy(o); v["tbl"] = {"present": True, "min": 0, "max": 1, "sym": "impl.Join"}; v["out"] = {"k": "ok", "items": []}; victims.append(v); break
     for o in obs:   # (c) an accepted call complains about arity when evaluated
         if o["kind"] == "eval" and o["cs"]["name"] == "where" and o["out"]["k"] == "ok":
             v = copy.deepcopy(o); v["out"] = {"k": "err", "cls": ["WrongArity"], "msg": "x"}; victims.append(v); break
-    if len(victims) != 3:
+    if len(victims) != 4:
         raise D.Inconclusive("corrupted-record probe: found only %d suitable records" % len(victims))
     D.write_ndjson(ctx.path("corrupt.ndjson"), victims)
     vs = D.judge(ctx, "C16_Judge", "C16_judge.cfg", ctx.path("corrupt.ndjson"), tag="judge-corrupt")
-    if len(vs) != 3 or any(v["ok"] for v in vs):
+    if len(vs) != 4 or any(v["ok"] for v in vs):
         raise D.Inconclusive("corrupted-record probe: judge accepted a corrupted record: %s" % [v["id"] for v in vs if v["ok"]])
     ctx.extra["corrupted_record_rejected"] = True
